@@ -76,6 +76,17 @@ func sqlDoCtx(ctx context.Context, kv *sqlite3.SqliteKV, op string) error {
 			{SimpleValue: []byte("iv")}, {PrefixChildren: [][]byte{[]byte("x"), []byte("z")}}})
 	case "K":
 		return kv.RemoveKeys(ctx, [][]byte{[]byte("a")})
+	case "I250", "K250": // bulk transfer of 250 keys (round-12 seed: removal committed in batches)
+		var keys [][]byte
+		var vals []*protocol.KVTransfer
+		for i := 0; i < 250; i++ {
+			keys = append(keys, []byte(fmt.Sprintf("b%03d", i)))
+			vals = append(vals, &protocol.KVTransfer{SimpleValue: []byte(fmt.Sprintf("w%03d", i))})
+		}
+		if op == "I250" {
+			return kv.Import(ctx, keys, vals)
+		}
+		return kv.RemoveKeys(ctx, keys)
 	}
 	return fmt.Errorf("bad op")
 }
@@ -287,6 +298,7 @@ func c23Histories(thorough bool) [][]string {
 	long := [][]string{
 		{"Pa1", "Pa2", "Da"}, {"Apx", "Apx", "Rpx"}, {"Pa1", "Apx", "I"}, {"I", "K", "Pa1"}, {"Ql", "Ql", "Pa1"},
 		{"Apx", "Apy", "Rpx"}, {"Pa1", "K", "I"}, {"I", "Rpx", "Apx"},
+		{"I250", "K250"}, {"Pa1", "I250", "K250", "Apx"},
 	}
 	if thorough {
 		for _, a := range c23Alphabet {
